@@ -424,6 +424,50 @@ func hoTCPKeys(c vCfg) map[int][]int {
 
 var vKeyClass = map[int]int{1: 1, 2: 2, 3: 3, 4: 1, 6: 4, 7: 5}
 
+// hoClasses: key classes per address for one protocol (again only to decide in which ORDER the clients go)
+func hoClasses(c *vCfg, proto string) map[int]map[int]bool {
+	out := map[int]map[int]bool{}
+	if c == nil {
+		return out
+	}
+	add := func(a, k int) {
+		if out[a] == nil {
+			out[a] = map[int]bool{}
+		}
+		if cs, ok := vKeyClass[k]; ok {
+			out[a][cs] = true
+		}
+	}
+	for _, s := range c.Svcs {
+		for _, l := range s.Ls {
+			if l[0].(string) == proto {
+				for _, k := range s.Ks {
+					add(int(l[1].(float64)), k)
+				}
+			}
+		}
+	}
+	for _, lk := range c.Legacy {
+		add(lk[0], lk[1])
+	}
+	return out
+}
+
+// hoOrder: the classes 1..n, those that the old and the new configuration serve differently on address a first.  The first
+// connection/datagram after a stop is the one a stale reader of the stopped generation would take.
+func hoOrder(old, new *vCfg, proto string, a, n int) []int {
+	o, w := hoClasses(old, proto)[a], hoClasses(new, proto)[a]
+	var first, rest []int
+	for cs := 1; cs <= n; cs++ {
+		if o[cs] != w[cs] {
+			first = append(first, cs)
+		} else {
+			rest = append(rest, cs)
+		}
+	}
+	return append(first, rest...)
+}
+
 func (h *vHarness) runHandover(sc vScenario, sk *hoSink) {
 	m := newVMetrics()
 	s := &hoState{h: h, m: m}
@@ -465,7 +509,10 @@ func (h *vHarness) runHandover(sc vScenario, sk *hoSink) {
 	var carried []*hoRelay // relays kept across more than one reload
 	var straddles []*hoStraddle
 	steps := sc.Steps
+	vFill = 0
 	if sc.Mode == "hammer" {
+		vFill = 1500
+		defer func() { vFill = 0 }()
 		// free-running clients see more reloads: the sequence of configurations is cycled
 		for c := 0; c < 4; c++ {
 			steps = append(steps, sc.Steps...)
@@ -492,6 +539,7 @@ func (h *vHarness) runHandover(sc vScenario, sk *hoSink) {
 		}
 		gateHit := make(chan string)
 		gateGo := make(chan struct{})
+		endedEarly := false
 		if sc.Mode != "hammer" {
 			verifReloadGate = func(stage string) { gateHit <- stage; <-gateGo }
 		} else {
@@ -506,6 +554,11 @@ func (h *vHarness) runHandover(sc vScenario, sk *hoSink) {
 				select {
 				case name := <-gateHit:
 					h.emit(map[string]any{"ev": "Window", "stage": name})
+					if name == "stopped" && !endedEarly {
+						// Stop(old) has returned: from here on only the new generation may handle anything
+						endedEarly = true
+						s.ended.Add(1)
+					}
 					if name == "started" {
 						for a := 1; a <= len(h.u.ports); a++ {
 							for cs := 1; cs <= len(vClassKey); cs++ {
@@ -514,9 +567,17 @@ func (h *vHarness) runHandover(sc vScenario, sk *hoSink) {
 						}
 					}
 					for a := 1; a <= len(h.u.ports); a++ {
-						for cs := 1; cs <= len(vClassKey); cs++ {
-							s.clientTCP(a, cs, "window-"+name)
-							s.clientUDP(a, cs, "window-"+name)
+						next := st.Cfg
+						tcpOrd := hoOrder(cur, &next, "tcp", a, len(vClassKey))
+						udpOrd := hoOrder(cur, &next, "udp", a, len(vClassKey))
+						for j := range tcpOrd {
+							s.clientTCP(a, tcpOrd[j], "window-"+name)
+							s.clientUDP(a, udpOrd[j], "window-"+name)
+						}
+						// two generations reading from one socket tend to take datagrams in turn: vary the parity, so that
+						// whichever of them has a read pending when the old one is stopped is not always the same
+						if name == "started" && (int(s.started.Load())+a)%2 == 1 {
+							s.clientUDP(a, udpOrd[len(udpOrd)-1], "window-"+name)
 						}
 					}
 					gateGo <- struct{}{}
@@ -532,7 +593,9 @@ func (h *vHarness) runHandover(sc vScenario, sk *hoSink) {
 			s.finishStraddle(st)
 		}
 		straddles = nil
-		s.ended.Add(1)
+		if !endedEarly {
+			s.ended.Add(1)
+		}
 		h.emit(map[string]any{"ev": "LoadEnd", "n": s.ended.Load(), "ok": err == nil, "err": fmt.Sprint(err)})
 		if err == nil {
 			c := st.Cfg
